@@ -11,6 +11,12 @@ from pplv import facts as F
 from pplv import flow
 
 FILES = ["Polyhedron_nonpublic.cc", "Polyhedron_public.cc", "Polyhedron_chdims.cc", "Polyhedron_widenings.cc"]
+CLS = "Polyhedron"
+HEADER_RE = r"Polyhedron_(inlines|templates|chdims_templates)\.hh"
+ANCHOR = ("select_H79_constraints", 3)
+MIN_REQ = 15
+# preconditions a worker relies on without asserting them (stated here, discharged at its call sites)
+IMPLICIT_REQ = {}
 
 # predicate -> (atom, value when the predicate is true)
 PRED = {
@@ -139,7 +145,7 @@ def entry_assertions(f):
 
 def debug_units():
     return [F.lib_unit(n, view="debug") for n in FILES] + \
-        [F.driver_unit("domains.cc", view="debug", file_re=r"Polyhedron_(inlines|templates|chdims_templates)\.hh")]
+        [F.driver_unit("domains.cc", view="debug", file_re=HEADER_RE)]
 
 
 # non-const asserted workers that change their receiver only by a final, committing m_swap after
@@ -152,7 +158,7 @@ def mine(ctx):
     fx = ctx.extract(debug_units())
     req = {}
     for f in fx.functions:
-        if f.clsn != "Polyhedron" or f.flag("pattern"):
+        if f.clsn != CLS or f.flag("pattern"):
             continue
         atoms = entry_assertions(f)
         if not atoms:
@@ -166,6 +172,8 @@ def mine(ctx):
                 lst.append((pos[o[1]], a, v))
         if lst:
             req[(f.name, len(f.params))] = sorted(set(lst), key=str)
+    for k, v in IMPLICIT_REQ.items():
+        req[k] = sorted(set(req.get(k, []) + list(v)), key=str)
     return req
 
 
@@ -182,6 +190,10 @@ NONCONTENT = ("space_dimension", "topology", "is_necessarily_closed", "total_mem
               "representation", "OK", "ascii_dump", "is_sorted", "first_pending_row", "num_pending_rows", "check_sorted")
 SKIP_FUNCS = ("OK", "ascii_dump", "ascii_load", "m_swap", "operator=", "total_memory_in_bytes", "external_memory_in_bytes",
               "print", "set_empty", "set_zero_dim_univ")
+# non-const members of a description that add rows to it: the rows already there must be current
+# (linear maps and dimension changes are applied uniformly to all rows, pending ones included, and need no such state)
+ROW_EDITS = ("insert", "insert_pending", "merge_rows_assign", "add_row", "add_rows", "add_recycled_rows",
+             "add_recycled_row", "add_pending_row", "add_pending_rows", "add_recycled_pending_rows", "add_recycled_pending_row")
 NEED = {"con_sys": (("CU", True), ("PG", False)), "gen_sys": (("GU", True), ("PC", False))}
 
 
@@ -207,7 +219,8 @@ def direct_reads(f):
             continue
         content = False
         if p["k"] == "mcall" and f.call_obj(p) is not None and f.within(m, f.call_obj(p)):
-            content = bool(p.get("cconst")) and f.call_name(p) not in NONCONTENT
+            content = (bool(p.get("cconst")) and f.call_name(p) not in NONCONTENT) or \
+                (not p.get("cconst") and f.call_name(p) in ROW_EDITS)
         elif p["k"] == "ocall" and p.get("op") == "[]":
             content = True
         elif p["k"] in ("call", "mcall", "construct", "ocall"):
@@ -234,7 +247,7 @@ def direct_reads(f):
 def discharge(ctx, rid, exceptions=None, judged_atoms=("PG", "PC", "CU", "GU"), direct=False):
     exceptions = exceptions or {}
     req = mine(ctx)
-    ctx.require(rid, ("select_H79_constraints", 3) in req and len(req) >= 15,
+    ctx.require(rid, ANCHOR in req and len(req) >= MIN_REQ,
                 "entry assertions on the lazy state were not found in the assertion-enabled view (%d members)" % len(req))
     fx = ctx.extract(debug_units())
     n_sites = 0
@@ -242,7 +255,7 @@ def discharge(ctx, rid, exceptions=None, judged_atoms=("PG", "PC", "CU", "GU"), 
     skipped = 0
     seen = set()
     for f in fx.functions:
-        if f.clsn != "Polyhedron" or f.flag("pattern") or not f.cfg or (f.relfile, f.line) in seen:
+        if f.clsn != CLS or f.flag("pattern") or not f.cfg or (f.relfile, f.line) in seen:
             continue
         seen.add((f.relfile, f.line))
         sites = {}
@@ -394,7 +407,7 @@ def discharge(ctx, rid, exceptions=None, judged_atoms=("PG", "PC", "CU", "GU"), 
         for ai in sorted(set(a["i"] for a in in_assert.values())):
             an = f.nodes[ai]
             n_sites += 1
-            inst = "Polyhedron::%s asserts `%s`" % (who, f.text(an["c"][0])[:60])
+            inst = CLS + "::%s asserts `%s`" % (who, f.text(an["c"][0])[:60])
             if ai not in afail:
                 ctx.ok(rid, inst, f.where(an))
             else:
@@ -408,7 +421,7 @@ def discharge(ctx, rid, exceptions=None, judged_atoms=("PG", "PC", "CU", "GU"), 
                         show(a, v), oname, ", ".join(show(k, w) for k, w in sorted(st.items()))))
         for i, (o_, side, m_) in sorted(reads.items()):
             n_sites += 1
-            inst = "Polyhedron::%s reads %s%s" % (who, "" if o_ == "this" else o_[1] + ".", side)
+            inst = CLS + "::%s reads %s%s" % (who, "" if o_ == "this" else o_[1] + ".", side)
             if i not in rfail:
                 ctx.ok(rid, inst, f.where(m_))
             else:
@@ -422,7 +435,7 @@ def discharge(ctx, rid, exceptions=None, judged_atoms=("PG", "PC", "CU", "GU"), 
         for i, (c, obl) in sorted(sites.items()):
             n_sites += 1
             n_atoms += len(obl)
-            inst = "Polyhedron::%s calls %s" % (who, f.call_name(c))
+            inst = CLS + "::%s calls %s" % (who, f.call_name(c))
             if i not in failures:
                 ctx.ok(rid, inst, f.where(c))
                 continue
@@ -444,3 +457,61 @@ def discharge(ctx, rid, exceptions=None, judged_atoms=("PG", "PC", "CU", "GU"), 
     ctx.count(rid, "asserted atoms judged", n_atoms)
     ctx.count(rid, "obligations on local objects not judged", skipped)
     return n_sites
+
+
+# ---------------------------------------------------------------------------------------------
+# Configurations.  The tables above are Polyhedron's; use(GRID) swaps in Grid's.
+
+def _entails_poly(st, atom, val):
+    return entails(st, atom, val)
+
+
+def entails_grid(st, atom, val):
+    if st.get(atom) is val:
+        return True
+    # a non-empty grid has at least one description up to date; minimized implies up to date
+    if atom == "CU" and val is True:
+        return st.get("CM") is True or st.get("GU") is False
+    if atom == "GU" and val is True:
+        return st.get("GM") is True or st.get("CU") is False
+    return False
+
+
+_POLY = None
+
+
+def use(cfg):
+    """Install a configuration (dict of module-level tables); returns the previous one."""
+    g = globals()
+    prev = {k: g[k] for k in cfg}
+    g.update(cfg)
+    return prev
+
+
+GRID_ALL = {"CU": True, "GU": True, "CM": True, "GM": True}
+GRID = {
+    "FILES": ["Grid_nonpublic.cc", "Grid_public.cc", "Grid_chdims.cc", "Grid_widenings.cc"],
+    "CLS": "Grid",
+    "HEADER_RE": r"Grid_(inlines|templates)\.hh",
+    "ANCHOR": ("select_wider_congruences", 2),
+    "MIN_REQ": 4,
+    "PRED": {"congruences_are_up_to_date": "CU", "generators_are_up_to_date": "GU",
+             "congruences_are_minimized": "CM", "generators_are_minimized": "GM"},
+    "EFFECT": {
+        "minimize": GRID_ALL,
+        "update_congruences": {"CU": True, "CM": True}, "update_generators": {"GU": True, "GM": True},
+        "set_congruences_up_to_date": {"CU": True}, "set_generators_up_to_date": {"GU": True},
+        "set_congruences_minimized": {"CM": True, "CU": True}, "set_generators_minimized": {"GM": True, "GU": True},
+        "clear_congruences_up_to_date": {"CU": False, "CM": False}, "clear_generators_up_to_date": {"GU": False, "GM": False},
+        "clear_congruences_minimized": {"CM": False}, "clear_generators_minimized": {"GM": False},
+        "OK": {},
+    },
+    "EMPTY_IF_FALSE": ("minimize", "update_generators", "simplify"),
+    "entails": entails_grid,
+    "NEED": {"con_sys": (("CU", True),), "gen_sys": (("GU", True),)},
+    "NAMES": {"CU": "congruences_are_up_to_date()", "GU": "generators_are_up_to_date()",
+              "CM": "congruences_are_minimized()", "GM": "generators_are_minimized()"},
+    "KEEPS_RECEIVER_UNLESS_COMMITTED": (),
+    "SKIP_FUNCS": SKIP_FUNCS + ("construct",),
+    "IMPLICIT_REQ": {("update_congruences", 0): [("this", "GU", True)]},
+}
